@@ -692,6 +692,7 @@ struct OpObs {
     remap: Option<(Value, usize)>,
     remap_err: Option<String>,
     eq_self: Option<bool>,
+    eq_fresh: Option<bool>,
     oob: Vec<String>,
     lencap: Vec<String>,
     other: Vec<String>,
@@ -747,7 +748,7 @@ impl<'a> Visitor for OpVisitor<'a> {
                 let ab = x.as_bytes();
                 c.range("as_bytes", ab.as_ptr() as usize, ab.len());
                 let revalidate = res_json(&T::validate(ab));
-                Ok(OpObs { results, read, size, revalidate, remap: None, remap_err: None, eq_self: None, oob: c.oob, lencap: c.lencap, other: c.other })
+                Ok(OpObs { results, read, size, revalidate, remap: None, remap_err: None, eq_self: None, eq_fresh: None, oob: c.oob, lencap: c.lencap, other: c.other })
             });
             let mut obs = match r {
                 Obs::Panic(m) => {
@@ -794,6 +795,21 @@ impl<'a> Visitor for OpVisitor<'a> {
                     Obs::Panic(m) => obs.remap_err = Some(format!("panic: {}", m)),
                 }
             }
+            // a freshly constructed value with the same content, in a buffer with different leftover bytes, compares equal
+            {
+                let p3 = eng.aux.place(l, 0, 16, Place::Start);
+                for b in p3.slice().iter_mut() {
+                    *b = 0xA5;
+                }
+                let readv = obs.read.clone();
+                let r3 = guarded(|| match T::new_in_place(p3.slice(), T::emp(&readv, 1)) {
+                    Ok(z) => T::from_bytes(pl.slice()).ok().and_then(|x| x.eq_(z)),
+                    Err(_) => None,
+                });
+                if let Obs::Ret(e) = r3 {
+                    obs.eq_fresh = e;
+                }
+            }
             let rel = format!("{}.{}", node, op0);
             let mut generic: Vec<(&str, String, String)> = vec![]; // (check, relation, detail) shared by C11/C12
             for (i, st) in steps.iter().enumerate() {
@@ -831,6 +847,9 @@ impl<'a> Visitor for OpVisitor<'a> {
                     }
                     if obs.eq_self == Some(false) {
                         generic.push(("eq", "not-equal-to-copy".into(), "value != a mapped copy of its own bytes".into()));
+                    }
+                    if obs.eq_fresh == Some(false) {
+                        generic.push(("eq", "not-equal-to-fresh".into(), "value != a freshly constructed value with the same content (other leftover bytes in spare room)".into()));
                     }
                 }
                 (None, Some(e)) => generic.push(("remap", "rejected".into(), e.clone())),
